@@ -444,8 +444,12 @@ def listingAll (env : Env) (p : Str) (want : SEntry → Bool) : SM (List FsPath)
   | .hang => (.hang, t)
 
 def wantAll : SEntry → Bool := fun _ => true
-def wantDirs : SEntry → Bool := (·.dir)       -- `x.is_dir()`: includes links to directories
-def wantFiles : SEntry → Bool := (·.file)     -- `x.is_file()`: includes links to files
+-- `.dirs()` keeps `x.is_dir()` (true for links to directories as well); the collecting loop then skips
+-- links: `let entry = entry?; if entry.is_symlink() { continue; } paths.push(entry.path_buf());`
+-- (repair of S7 / `listing_includes_links`; `want` only decides what is collected, never the descent)
+def wantDirs : SEntry → Bool := fun e => e.dir && !e.link
+-- `.files()` keeps `x.is_file()` (true for links to files as well); same skip of links in the loop
+def wantFiles : SEntry → Bool := fun e => e.file && !e.link
 
 /-! ### chmod -/
 
